@@ -1,6 +1,1191 @@
-//! C19 — stub: correspondence harness not built yet.
+//! C19 — tokens and snippets always point inside the text, on character boundaries.
+//!
+//! Ties `Model/Tokenizer/*.lean` + `Model/Snippet.lean` to `src/tokenizer/*.rs` and
+//! `src/snippet/mod.rs`:
+//!  * oracle (implementation alone): every token of every tokenizer × filter chain is in bounds,
+//!    on char boundaries, positions never decrease, un-normalised text = slice, filters never move
+//!    offsets; snippets never panic, the fragment is a substring no longer than max_num_chars,
+//!    highlights are sorted / disjoint / inside / on boundaries / cover a query term, the HTML
+//!    un-escapes back to the fragment and has no raw special character outside the tags;
+//!  * model: (from, to, position) of the mirrored tokenizers, full token lists of filter chains
+//!    (Unicode / stemmer / dictionary functions sent as tables), fragment + raw highlights +
+//!    HTML bytes of the snippet, `collapse_overlapped_ranges`.
+use crate::model::{hex, nat_list};
+use crate::rng::Rng;
 use crate::Ctx;
+use serde::{Deserialize, Serialize};
+use serde_json::json;
+use std::collections::{BTreeMap, BTreeSet};
+use std::ops::Range;
+use std::panic::{catch_unwind, AssertUnwindSafe};
+use tantivy::query::{BooleanQuery, Occur, PhraseQuery, Query, TermQuery};
+use tantivy::schema::{IndexRecordOption, Schema, TextFieldIndexing, TextOptions};
+use tantivy::snippet::{collapse_overlapped_ranges, Snippet, SnippetGenerator};
+use tantivy::tokenizer::*;
+use tantivy::{doc, Index, IndexWriter, Term};
+
+const K_LONG: &str = "C19:fragment-longer-than-max-when-first-token-long";
+const K_FACET: &str = "C19:facet-tokens-carry-no-offsets";
+const K_OVERLAP: &str = "C19:raw-highlights-overlap-with-overlapping-tokens";
+const K_OUTSIDE: &str = "C19:highlight-outside-fragment-when-token-end-offsets-decrease";
+
+// ------------------------------------------------------------------------------------------
+// analyzers
+// ------------------------------------------------------------------------------------------
+#[derive(Clone, Debug, Serialize, Deserialize, PartialEq)]
+enum Tk {
+    Simple,
+    Whitespace,
+    Raw,
+    Ngram { min: usize, max: usize, prefix: bool },
+    Facet,
+    Regex { pat: String },
+}
+
+#[derive(Clone, Debug, Serialize, Deserialize, PartialEq)]
+enum Fl {
+    Lower,
+    Fold,
+    RemoveLong(usize),
+    AlnumOnly,
+    Stop(Vec<String>),
+    StopEnglish,
+    Stem(String),
+    Split(Vec<String>),
+}
+
+impl Fl {
+    /// the filter may change the token text (text = slice is then not promised)
+    fn normalising(&self) -> bool {
+        matches!(self, Fl::Lower | Fl::Fold | Fl::Stem(_) | Fl::Split(_))
+    }
+}
+
+fn language(name: &str) -> Language {
+    match name {
+        "German" => Language::German,
+        "French" => Language::French,
+        "Russian" => Language::Russian,
+        "Greek" => Language::Greek,
+        "Turkish" => Language::Turkish,
+        "Arabic" => Language::Arabic,
+        "Tamil" => Language::Tamil,
+        _ => Language::English,
+    }
+}
+
+fn build(tk: &Tk, fls: &[Fl]) -> TextAnalyzer {
+    let mut b = match tk {
+        Tk::Simple => TextAnalyzer::builder(SimpleTokenizer::default()).dynamic(),
+        Tk::Whitespace => TextAnalyzer::builder(WhitespaceTokenizer::default()).dynamic(),
+        Tk::Raw => TextAnalyzer::builder(RawTokenizer::default()).dynamic(),
+        Tk::Facet => TextAnalyzer::builder(FacetTokenizer::default()).dynamic(),
+        Tk::Ngram { min, max, prefix } => TextAnalyzer::builder(NgramTokenizer::new(*min, *max, *prefix).unwrap()).dynamic(),
+        Tk::Regex { pat } => TextAnalyzer::builder(RegexTokenizer::new(pat).unwrap()).dynamic(),
+    };
+    for f in fls {
+        b = match f {
+            Fl::Lower => b.filter_dynamic(LowerCaser),
+            Fl::Fold => b.filter_dynamic(AsciiFoldingFilter),
+            Fl::RemoveLong(n) => b.filter_dynamic(RemoveLongFilter::limit(*n)),
+            Fl::AlnumOnly => b.filter_dynamic(AlphaNumOnlyFilter),
+            Fl::Stop(ws) => b.filter_dynamic(StopWordFilter::remove(ws.clone())),
+            Fl::StopEnglish => b.filter_dynamic(StopWordFilter::new(Language::English).unwrap()),
+            Fl::Stem(l) => b.filter_dynamic(Stemmer::new(language(l))),
+            Fl::Split(d) => b.filter_dynamic(SplitCompoundWords::from_dictionary(d.iter()).unwrap()),
+        };
+    }
+    b.build()
+}
+
+fn tokens_of(an: &mut TextAnalyzer, text: &str) -> Result<Vec<Token>, ()> {
+    catch_unwind(AssertUnwindSafe(|| {
+        let mut out = vec![];
+        let mut ts = an.token_stream(text);
+        while ts.advance() {
+            out.push(ts.token().clone());
+        }
+        out
+    }))
+    .map_err(|_| ())
+}
+
+const ENGLISH_STOP: [&str; 33] = [
+    "a", "an", "and", "are", "as", "at", "be", "but", "by", "for", "if", "in", "into", "is", "it", "no", "not", "of", "on", "or", "such",
+    "that", "the", "their", "then", "there", "these", "they", "this", "to", "was", "will", "with",
+];
+
+// ------------------------------------------------------------------------------------------
+// text generation
+// ------------------------------------------------------------------------------------------
+const ASCII_WORDS: [&str; 22] = [
+    "the", "running", "flies", "Hello", "WORLD", "tax", "payer", "dampf", "schiff", "fahrt", "dampfschifffahrt", "a", "I", "and", "x1",
+    "42", "abcdefghij", "klm", "rust", "Rusty", "is", "ponies",
+];
+const UNI_WORDS: [&str; 24] = [
+    "café", "Straße", "İstanbul", "ǅemal", "ΣΊΣΥΦΟΣ", "ὈΔΥΣΣΕΎΣ", "naïve", "Ærøskøbing", "日本語", "テキスト", "한국어", "привет", "Привет",
+    "مرحبا", "हिन्दी", "ﬁnal", "ẞ", "𝒜𝒷𝒸", "𐐀𐐨", "e\u{301}cole", "a\u{20dd}", "ก\u{e31}น", "Ⅻ", "ǆ",
+];
+const EMOJI: [&str; 8] = ["😀", "👨\u{200d}👩\u{200d}👧", "👍🏽", "🇩🇪", "❤\u{fe0f}", "🏳\u{fe0f}\u{200d}🌈", "💣", "☃"];
+const SPACES: [&str; 12] = [" ", " ", " ", "\t", "\n", "\r\n", "\u{c}", "\u{b}", "\u{a0}", "\u{2003}", "\u{3000}", "\u{85}"];
+const PUNCT: [&str; 16] = ["<", ">", "&", "\"", "'", ",", ".", "-", "/", "!", "<b>", "</b>", "&amp;", "_", "(", ";"];
+const CONTROL: [&str; 9] = ["\0", "\u{1}", "\u{7f}", "\u{80}", "\u{9f}", "\u{feff}", "\u{200b}", "\u{2028}", "\u{1b}"];
+
+fn random_scalar(rng: &mut Rng) -> char {
+    loop {
+        let c = match rng.below(5) {
+            0 => rng.below(0x80) as u32,
+            1 => 0x80 + rng.below(0x800 - 0x80) as u32,
+            2 => 0x800 + rng.below(0x10000 - 0x800) as u32,
+            3 => 0x10000 + rng.below(0x110000 - 0x10000) as u32,
+            // boundaries of the UTF-8 width classes
+            _ => *rng.pick(&[0x7f, 0x80, 0x7ff, 0x800, 0xffff, 0x10000, 0x10ffff, 0xd7ff, 0xe000]),
+        };
+        if let Some(ch) = char::from_u32(c) {
+            return ch;
+        }
+    }
+}
+
+fn gen_text(rng: &mut Rng) -> String {
+    let profile = rng.below(100);
+    let mut s = String::new();
+    if profile < 3 {
+        return s; // empty text
+    }
+    if profile < 6 {
+        // one very long token (1, 2, 3 or 4-byte code points), possibly with a short neighbour
+        let unit = *rng.pick(&["a", "é", "日", "𝒜", "Z", "İ"]);
+        let n = *rng.pick(&[39usize, 40, 41, 254, 255, 256, 1000, 5000, 20000]);
+        if rng.chance(1, 2) {
+            s.push_str("ab ");
+        }
+        for _ in 0..n {
+            s.push_str(unit);
+        }
+        if rng.chance(1, 2) {
+            s.push_str(" cd");
+        }
+        return s;
+    }
+    let pieces = match rng.below(6) {
+        0 => 1,
+        1 => 2,
+        2 => 3 + rng.usize_below(4),
+        3 => 8 + rng.usize_below(12),
+        4 => 20 + rng.usize_below(40),
+        _ => 1 + rng.usize_below(8),
+    };
+    let ascii_only = profile < 20;
+    let no_space = (20..26).contains(&profile);
+    for i in 0..pieces {
+        let k = rng.below(20);
+        if ascii_only {
+            s.push_str(if k < 12 { *rng.pick(&ASCII_WORDS) } else if k < 17 { *rng.pick(&SPACES[..7]) } else { *rng.pick(&PUNCT) });
+            if k < 8 {
+                s.push(' ');
+            }
+            continue;
+        }
+        match k {
+            0..=4 => s.push_str(*rng.pick(&ASCII_WORDS)),
+            5..=9 => s.push_str(*rng.pick(&UNI_WORDS)),
+            10..=11 => s.push_str(*rng.pick(&EMOJI)),
+            12 => s.push_str(*rng.pick(&PUNCT)),
+            13 => s.push_str(*rng.pick(&CONTROL)),
+            14..=15 => {
+                for _ in 0..1 + rng.usize_below(4) {
+                    s.push(random_scalar(rng));
+                }
+            }
+            _ => {}
+        }
+        if !no_space && i + 1 < pieces {
+            match rng.below(6) {
+                0 => {}
+                1 => s.push_str(*rng.pick(&PUNCT)),
+                _ => s.push_str(*rng.pick(&SPACES)),
+            }
+        }
+    }
+    s
+}
+
+fn gen_tokenizer(rng: &mut Rng) -> Tk {
+    match rng.below(12) {
+        0..=2 => Tk::Simple,
+        3 => Tk::Whitespace,
+        4 => Tk::Raw,
+        5..=7 => {
+            let (min, max) = *rng.pick(&[(1usize, 1usize), (1, 2), (1, 3), (2, 3), (2, 5), (3, 3), (1, 5), (4, 7), (2, 2), (1, 40), (5, 1000)]);
+            Tk::Ngram { min, max, prefix: rng.chance(1, 3) }
+        }
+        8 => Tk::Facet,
+        _ => Tk::Regex {
+            pat: rng
+                .pick(&[r"\w+", r"[^\s]+", r"'(?:\w*)'", r"\p{L}+", r"[a-z]*", r".", r"(?s).{1,3}", r"\b\w", r"^\w+", r"\d+|[A-Z]\w*", r"[^a-z]+"])
+                .to_string(),
+        },
+    }
+}
+
+fn gen_filter(rng: &mut Rng) -> Fl {
+    match rng.below(9) {
+        0 | 1 => Fl::Lower,
+        2 => Fl::Fold,
+        3 => Fl::RemoveLong(*rng.pick(&[1usize, 2, 4, 6, 40, 255, 256])),
+        4 => Fl::AlnumOnly,
+        5 => {
+            if rng.chance(1, 2) {
+                Fl::StopEnglish
+            } else {
+                Fl::Stop(vec!["the".into(), "café".into(), "a".into(), "日本語".into(), "is".into(), "ab".into(), "c".into(), "d".into(), "cd".into()])
+            }
+        }
+        6 => Fl::Stem(rng.pick(&["English", "German", "French", "Russian", "Greek", "Turkish", "Arabic"]).to_string()),
+        7 => Fl::Split(vec!["dampf".into(), "schiff".into(), "fahrt".into(), "tax".into(), "payer".into(), "日本".into(), "語".into(), "caf".into(), "é".into(), "ab".into(), "c".into()]),
+        _ => Fl::Lower,
+    }
+}
+
+fn gen_chain(rng: &mut Rng) -> Vec<Fl> {
+    let n = match rng.below(8) {
+        0 | 1 => 0,
+        2 | 3 | 4 => 1,
+        5 | 6 => 2,
+        _ => 3 + rng.usize_below(2),
+    };
+    (0..n).map(|_| gen_filter(rng)).collect()
+}
+
+// ------------------------------------------------------------------------------------------
+// model encoding
+// ------------------------------------------------------------------------------------------
+fn enc_text(text: &str) -> String {
+    if text.is_empty() {
+        return "- -".into();
+    }
+    let mut codes = String::with_capacity(text.len() * 4);
+    let mut bits = String::with_capacity(text.len() * 2);
+    for (i, c) in text.chars().enumerate() {
+        if i > 0 {
+            codes.push(',');
+            bits.push(',');
+        }
+        codes.push_str(&(c as u32).to_string());
+        bits.push(if c.is_alphanumeric() { '1' } else { '0' });
+    }
+    format!("{codes} {bits}")
+}
+
+fn dots(s: &str) -> String {
+    s.chars().map(|c| (c as u32).to_string()).collect::<Vec<_>>().join(".")
+}
+
+fn enc_tokens(ts: &[Token]) -> String {
+    if ts.is_empty() {
+        return "-".into();
+    }
+    ts.iter().map(|t| format!("{}:{}:{}:{}", t.offset_from, t.offset_to, t.position, dots(&t.text))).collect::<Vec<_>>().join(";")
+}
+
+fn flat_offsets(ts: &[Token]) -> String {
+    let mut v = vec![];
+    for t in ts {
+        v.push(t.offset_from);
+        v.push(t.offset_to);
+        v.push(t.position);
+    }
+    nat_list(&v)
+}
+
+/// successive `regex.find(rest)` results relative to the rest, obtained from a *fresh*
+/// RegexTokenizer on each suffix (its first token has cursor 0, so no cursor arithmetic is involved)
+fn regex_matches(pat: &str, text: &str) -> Vec<usize> {
+    let mut out = vec![];
+    let mut cursor = 0;
+    loop {
+        let mut tk = RegexTokenizer::new(pat).unwrap();
+        let mut ts = tk.token_stream(&text[cursor..]);
+        if !ts.advance() {
+            break;
+        }
+        let (a, b) = (ts.token().offset_from, ts.token().offset_to);
+        out.push(a);
+        out.push(b);
+        if b == 0 || cursor + b > text.len() || !text.is_char_boundary(cursor + b) {
+            break;
+        }
+        cursor += b;
+    }
+    out
+}
+
+fn model_tok_request(tk: &Tk, text: &str, op: &str) -> String {
+    let t = enc_text(text);
+    match tk {
+        Tk::Simple => format!("C19 {op} simple {t}"),
+        Tk::Whitespace => format!("C19 {op} whitespace {t}"),
+        Tk::Raw => format!("C19 {op} raw {t}"),
+        Tk::Facet => format!("C19 {op} facet {t}"),
+        Tk::Ngram { min, max, prefix } => format!("C19 {op} ngram {min} {max} {} {t}", *prefix as u8),
+        Tk::Regex { pat } => format!("C19 {op} regex {} {t}", nat_list(&regex_matches(pat, text))),
+    }
+}
+
+/// the single-filter analyzer over RawTokenizer evaluates a text-level function at one point
+fn raw_with(f: &Fl, text: &str) -> Vec<String> {
+    let mut an = build(&Tk::Raw, std::slice::from_ref(f));
+    tokens_of(&mut an, text).unwrap_or_default().into_iter().map(|t| t.text).collect()
+}
+
+/// filter spec for the model, with the parameter tables evaluated on the token texts that reach it
+fn filter_spec(f: &Fl, reaching: &[Token]) -> String {
+    let texts: BTreeSet<&str> = reaching.iter().map(|t| t.text.as_str()).collect();
+    filter_spec_texts(f, &texts)
+}
+
+/// FacetTokenizer appends to the token's text buffer, which in-place filters rewrite: the texts
+/// that reach each filter of the chain, obtained by threading the buffer through the *real*
+/// single-filter analyzers (the Lean model does the same threading with these tables)
+fn facet_reaching(fls: &[Fl], text: &str) -> Vec<BTreeSet<String>> {
+    let mut reach: Vec<BTreeSet<String>> = vec![BTreeSet::new(); fls.len()];
+    let bytes = text.as_bytes();
+    let mut pieces: Vec<&str> = vec![""];
+    if !text.is_empty() {
+        let mut start = 0;
+        for i in 1..bytes.len() {
+            if bytes[i] == 0 {
+                pieces.push(&text[start..i]);
+                start = i;
+            }
+        }
+        pieces.push(&text[start..]);
+    }
+    let mut cur = String::new();
+    for p in pieces {
+        cur.push_str(p);
+        let mut parts: Option<Vec<String>> = None; // None = the tokenizer's own token is exposed
+        for (k, f) in fls.iter().enumerate() {
+            match parts.as_mut() {
+                None => {
+                    reach[k].insert(cur.clone());
+                    let r = raw_with(f, &cur);
+                    match f {
+                        Fl::Lower | Fl::Fold | Fl::Stem(_) => cur = r.into_iter().next().unwrap_or_default(),
+                        Fl::RemoveLong(_) | Fl::AlnumOnly | Fl::Stop(_) | Fl::StopEnglish => {
+                            if r.is_empty() {
+                                break;
+                            }
+                        }
+                        Fl::Split(d) => {
+                            // a text that is itself one dictionary word is "split" into one detached
+                            // part (a clone): outer filters then no longer touch the buffer
+                            if r.len() >= 2 || (r.len() == 1 && !cur.is_empty() && d.contains(&cur)) {
+                                parts = Some(r);
+                            }
+                        }
+                    }
+                }
+                Some(ps) => {
+                    let mut next = vec![];
+                    for q in ps.iter() {
+                        reach[k].insert(q.clone());
+                        next.extend(raw_with(f, q));
+                    }
+                    *ps = next;
+                }
+            }
+        }
+    }
+    reach
+}
+
+fn filter_spec_texts(f: &Fl, texts: &BTreeSet<&str>) -> String {
+    let chars: BTreeSet<char> = texts.iter().flat_map(|t| t.chars()).filter(|c| !c.is_ascii()).collect();
+    match f {
+        Fl::Lower => format!("lower={}", chars.iter().map(|c| format!("{}>{}", *c as u32, dots(&c.to_lowercase().collect::<String>()))).collect::<Vec<_>>().join("/")),
+        Fl::Fold => {
+            let mut e = vec![];
+            for c in &chars {
+                let s = c.to_string();
+                let r = raw_with(&Fl::Fold, &s);
+                if r.len() == 1 && r[0] != s {
+                    e.push(format!("{}>{}", *c as u32, dots(&r[0])));
+                }
+            }
+            format!("fold={}", e.join("/"))
+        }
+        Fl::RemoveLong(n) => format!("rl={n}"),
+        Fl::AlnumOnly => "an".into(),
+        Fl::Stop(ws) => format!("stop={}", ws.iter().map(|w| dots(w)).collect::<Vec<_>>().join("/")),
+        Fl::StopEnglish => format!("stop={}", ENGLISH_STOP.iter().map(|w| dots(w)).collect::<Vec<_>>().join("/")),
+        Fl::Stem(_) => {
+            let mut e = vec![];
+            for t in texts {
+                let r = raw_with(f, t);
+                if r.len() == 1 {
+                    e.push(format!("{}>{}", dots(t), dots(&r[0])));
+                }
+            }
+            format!("stem={}", e.join("/"))
+        }
+        Fl::Split(d) => {
+            let mut e = vec![];
+            for t in texts {
+                let r = raw_with(f, t);
+                if r.len() >= 2 || (r.len() == 1 && !t.is_empty() && d.iter().any(|w| w == t)) {
+                    e.push(format!("{}>{}", dots(t), r.iter().map(|p| dots(p)).collect::<Vec<_>>().join("+")));
+                }
+            }
+            format!("split={}", e.join("/"))
+        }
+    }
+}
+
+// ------------------------------------------------------------------------------------------
+// tokenizer cases
+// ------------------------------------------------------------------------------------------
+fn tok_case(tk: &Tk, fls: &[Fl], text: &str) -> serde_json::Value {
+    json!({"kind": "tok", "tokenizer": tk, "filters": fls, "text": text})
+}
+
+fn short(text: &str) -> String {
+    let s: String = text.chars().take(60).collect();
+    format!("{:?}{}", s, if text.chars().count() > 60 { "…" } else { "" })
+}
+
+fn check_tokens(ctx: &mut Ctx, tk: &Tk, fls: &[Fl], text: &str) {
+    let case = tok_case(tk, fls, text);
+    let desc = format!("{:?}+{:?} on {}", tk, fls, short(text));
+    let mut an = build(tk, fls);
+    let toks = match tokens_of(&mut an, text) {
+        Ok(t) => t,
+        Err(_) => {
+            ctx.report.violation("oracle", "C19:tokenizer-panic", format!("token_stream panicked: {desc}"), case);
+            return;
+        }
+    };
+    let base = match tokens_of(&mut build(tk, &[]), text) {
+        Ok(t) => t,
+        Err(_) => {
+            ctx.report.violation("oracle", "C19:tokenizer-panic", format!("token_stream of the bare tokenizer panicked: {desc}"), case);
+            return;
+        }
+    };
+    let multibyte = !text.is_ascii();
+    ctx.report.case(&format!("tok|{:?}|{:?}|{}", tk, fls, text), !toks.is_empty() && (multibyte || toks.len() >= 2));
+    ctx.report.count(&format!("tokenizer:{}", match tk { Tk::Simple => "simple", Tk::Whitespace => "whitespace", Tk::Raw => "raw", Tk::Ngram { .. } => "ngram", Tk::Facet => "facet", Tk::Regex { .. } => "regex" }));
+    ctx.report.count(&format!("chain-len:{}", fls.len()));
+    for f in fls {
+        ctx.report.count(&format!("filter:{}", match f { Fl::Lower => "lower", Fl::Fold => "fold", Fl::RemoveLong(_) => "remove-long", Fl::AlnumOnly => "alnum-only", Fl::Stop(_) | Fl::StopEnglish => "stop", Fl::Stem(_) => "stem", Fl::Split(_) => "split" }));
+    }
+    ctx.report.count(if text.is_empty() { "text:empty" } else if multibyte { "text:multibyte" } else { "text:ascii" });
+    ctx.report.count_n("tokens", toks.len() as u64);
+    if text.chars().any(|c| c.len_utf8() == 4) {
+        ctx.report.count("text:has-4-byte");
+    }
+    if toks.iter().any(|t| t.offset_to - t.offset_from.min(t.offset_to) >= 255) {
+        ctx.report.count("token:>=255-bytes");
+    }
+
+    // ---- O5: the property's own predicates on every emitted token -------------------------
+    let normalising = fls.iter().any(|f| f.normalising());
+    let mut last_pos: Option<usize> = None;
+    let mut facet_reported = false;
+    for (i, t) in toks.iter().enumerate() {
+        if !(t.offset_from <= t.offset_to && t.offset_to <= text.len()) {
+            ctx.report.violation("oracle", "C19:token-out-of-bounds", format!("token {i} has offsets {}..{} in a text of {} bytes: {desc}", t.offset_from, t.offset_to, text.len()), case.clone());
+            return;
+        }
+        if !text.is_char_boundary(t.offset_from) || !text.is_char_boundary(t.offset_to) {
+            ctx.report.violation("oracle", "C19:token-off-char-boundary", format!("token {i} offsets {}..{} are not on character boundaries: {desc}", t.offset_from, t.offset_to), case.clone());
+            return;
+        }
+        if let Some(p) = last_pos {
+            if t.position < p {
+                ctx.report.violation("oracle", "C19:position-decreases", format!("token {i} position {} after {p}: {desc}", t.position), case.clone());
+                return;
+            }
+        }
+        last_pos = Some(t.position);
+        if !normalising && t.text != text[t.offset_from..t.offset_to] {
+            // the facet tokenizer never assigns offsets: its tokens carry 0..0 and a growing text
+            let facet_signature = *tk == Tk::Facet && t.offset_from == 0 && t.offset_to == 0 && text.starts_with(t.text.as_str())
+                && (t.text.len() == text.len() || text.as_bytes()[t.text.len()] == 0);
+            if facet_signature {
+                if !facet_reported {
+                    ctx.report.violation("oracle", K_FACET, format!("facet token {i} has text {:?} but offsets 0..0: {desc}", t.text), case.clone());
+                    facet_reported = true;
+                }
+            } else {
+                ctx.report.violation("oracle", "C19:token-text-not-slice", format!("token {i} text {:?} != text[{}..{}] = {:?}: {desc}", short(&t.text), t.offset_from, t.offset_to, short(&text[t.offset_from..t.offset_to])), case.clone());
+                return;
+            }
+        }
+    }
+    // filters never move offsets or positions: the filtered (from,to,pos) sequence is the bare
+    // tokenizer's sequence with entries dropped or repeated
+    if !fls.is_empty() {
+        let mut j = 0usize;
+        let mut ok = true;
+        for t in &toks {
+            let key = (t.offset_from, t.offset_to, t.position);
+            while j < base.len() && (base[j].offset_from, base[j].offset_to, base[j].position) != key {
+                j += 1;
+            }
+            if j == base.len() {
+                ok = false;
+                break;
+            }
+        }
+        if !ok {
+            ctx.report.violation("oracle", "C19:filter-changed-offsets", format!("the filtered stream carries offsets/positions the bare tokenizer never emitted: {desc}"), case.clone());
+            return;
+        }
+    }
+
+    // ---- O4: correspondence with the model --------------------------------------------------
+    let m = ctx.model.ask(&model_tok_request(tk, text, "tok"));
+    let r = flat_offsets(&base);
+    if m != r {
+        ctx.report.violation("model", "C19:tokenizer-offsets-mismatch", format!("bare tokenizer (from,to,pos): real {} model {}: {desc}", &r[..r.len().min(120)], &m[..m.len().min(120)]), case.clone());
+        return;
+    }
+    if !fls.is_empty() {
+        // run the chain in the model, stage by stage tables from the real prefix analyzers
+        let mut specs = vec![];
+        for k in 0..fls.len() {
+            let reaching = if k == 0 { base.clone() } else { tokens_of(&mut build(tk, &fls[..k]), text).unwrap_or_default() };
+            specs.push(filter_spec(&fls[k], &reaching));
+        }
+        let m = if *tk == Tk::Facet {
+            let reach = facet_reaching(fls, text);
+            let specs: Vec<String> = fls.iter().zip(&reach).map(|(f, r)| filter_spec_texts(f, &r.iter().map(|s| s.as_str()).collect())).collect();
+            ctx.report.count("facet-chain(buffer threaded through in-place filters)");
+            ctx.model.ask(&format!("C19 chainfacet {} {}", specs.join("|"), enc_text(text)))
+        } else {
+            ctx.model.ask(&format!("C19 chain {} {}", specs.join("|"), enc_tokens(&base)))
+        };
+        let r = enc_tokens(&toks);
+        if m != r {
+            ctx.report.violation("model", "C19:filter-chain-mismatch", format!("filter chain output: real {} model {}: {desc}", &r[..r.len().min(160)], &m[..m.len().min(160)]), case.clone());
+            return;
+        }
+    } else if (toks.len() as u64) * (text.len() as u64) <= 3_000_000 && (*tk != Tk::Facet || toks.len() <= 64) {
+        let m = ctx.model.ask(&model_tok_request(tk, text, "tokt"));
+        let r = enc_tokens(&toks);
+        if m != r {
+            ctx.report.violation("model", "C19:tokenizer-text-mismatch", format!("token texts: real {} model {}: {desc}", &r[..r.len().min(160)], &m[..m.len().min(160)]), case.clone());
+        }
+    }
+    if ctx.report.samples.len() < 2 && multibyte && toks.len() >= 2 && toks.len() <= 8 {
+        ctx.report.sample(json!({"tokenizer": tk, "filters": fls, "text": text, "tokens": toks.iter().map(|t| json!([t.offset_from, t.offset_to, t.position, t.text])).collect::<Vec<_>>()}));
+    }
+}
+
+// ------------------------------------------------------------------------------------------
+// snippets
+// ------------------------------------------------------------------------------------------
+/// un-escape `encode_minimal` output and strip `<b>`/`</b>`; Err = a raw special character
+fn unescape_strip(html: &str) -> Result<(String, Vec<String>), String> {
+    let mut out = String::new();
+    let mut tagged: Vec<String> = vec![];
+    let mut open: Option<String> = None;
+    let mut rest = html;
+    while let Some(c) = rest.chars().next() {
+        let mut adv = c.len_utf8();
+        if rest.starts_with("<b>") && open.is_none() {
+            open = Some(String::new());
+            adv = 3;
+        } else if rest.starts_with("</b>") && open.is_some() {
+            tagged.push(open.take().unwrap());
+            adv = 4;
+        } else {
+            let mut lit: Option<char> = None;
+            for (e, ch) in [("&quot;", '"'), ("&amp;", '&'), ("&#x27;", '\''), ("&lt;", '<'), ("&gt;", '>')] {
+                if rest.starts_with(e) {
+                    lit = Some(ch);
+                    adv = e.len();
+                }
+            }
+            let ch = match lit {
+                Some(ch) => ch,
+                None => {
+                    if matches!(c, '<' | '>' | '&' | '"' | '\'') {
+                        return Err(format!("raw {c:?} at byte {}", html.len() - rest.len()));
+                    }
+                    c
+                }
+            };
+            out.push(ch);
+            if let Some(o) = open.as_mut() {
+                o.push(ch);
+            }
+        }
+        rest = &rest[adv..];
+    }
+    if open.is_some() {
+        return Err("unclosed <b>".into());
+    }
+    Ok((out, tagged))
+}
+
+fn snip_case(tk: &Tk, fls: &[Fl], text: &str, terms: &BTreeMap<String, f32>, m: usize) -> serde_json::Value {
+    json!({"kind": "snip", "tokenizer": tk, "filters": fls, "text": text, "max_num_chars": m,
+           "terms": terms.iter().map(|(k, v)| (k.clone(), json!(v.to_bits()))).collect::<serde_json::Map<_, _>>()})
+}
+
+struct SnipOut {
+    fragment: String,
+    highlighted: Vec<Range<usize>>,
+    html: Result<String, ()>,
+}
+
+fn real_snippet(gen: &SnippetGenerator, text: &str) -> Result<SnipOut, ()> {
+    let sn: Snippet = catch_unwind(AssertUnwindSafe(|| gen.snippet(text))).map_err(|_| ())?;
+    let html = catch_unwind(AssertUnwindSafe(|| sn.to_html())).map_err(|_| ());
+    Ok(SnipOut { fragment: sn.fragment().to_string(), highlighted: sn.highlighted().to_vec(), html })
+}
+
+fn score_units(s: f32) -> Option<u64> {
+    // exact multiples of 2^-10 below 2: sums of a few thousand of them are exact in f32
+    let x = s as f64 * 1024.0;
+    if s >= 0.0 && s <= 1.0 && x.fract() == 0.0 { Some(x as u64) } else { None }
+}
+
+fn check_snippet(ctx: &mut Ctx, tk: &Tk, fls: &[Fl], text: &str, terms: &BTreeMap<String, f32>, max_chars: usize, via: &str, gen: Option<&SnippetGenerator>) {
+    let case = snip_case(tk, fls, text, terms, max_chars);
+    let desc = format!("{:?}+{:?} terms {:?} max_num_chars {max_chars} on {}", tk, fls, terms.keys().take(6).collect::<Vec<_>>(), short(text));
+    let own;
+    let gen = match gen {
+        Some(g) => g,
+        None => {
+            own = SnippetGenerator::new(terms.clone(), build(tk, fls), tantivy::schema::Field::from_field_id(0), max_chars);
+            &own
+        }
+    };
+    let toks = tokens_of(&mut build(tk, fls), text).unwrap_or_default();
+    let overlapping_tokens = toks.windows(2).any(|w| w[1].offset_from < w[0].offset_to) ;
+    let to_decreases = toks.windows(2).any(|w| w[1].offset_to < w[0].offset_to);
+    let matched: Vec<bool> = toks.iter().map(|t| terms.contains_key(&t.text.to_lowercase())).collect();
+    let n_matched = matched.iter().filter(|b| **b).count();
+    ctx.report.count(&format!("snippet:via-{via}"));
+    ctx.report.count(match n_matched { 0 => "snippet:matches-0", 1 => "snippet:matches-1", _ => "snippet:matches-many" });
+    ctx.report.count(if max_chars <= 3 { "snippet:max-tiny" } else if max_chars >= 100_000 { "snippet:max-huge" } else { "snippet:max-mid" });
+    if text.chars().any(|c| matches!(c, '<' | '>' | '&' | '"' | '\'')) {
+        ctx.report.count("snippet:text-has-html-special");
+    }
+    ctx.report.case(&format!("snip|{:?}|{:?}|{}|{:?}|{max_chars}", tk, fls, text, terms.keys().collect::<Vec<_>>()), n_matched >= 1);
+
+    // ---- model answer (computed first: it also tells where the model expects a panic) -------
+    let units: Option<Vec<Option<u64>>> = toks.iter().map(|t| match terms.get(&t.text.to_lowercase()) { None => Some(None), Some(s) => score_units(*s).map(Some) }).collect();
+    let model = units.as_ref().map(|u| {
+        let st = if toks.is_empty() { "-".to_string() } else {
+            toks.iter().zip(u).map(|(t, s)| format!("{}:{}:{}", t.offset_from, t.offset_to, s.map(|v| v.to_string()).unwrap_or("n".into()))).collect::<Vec<_>>().join(";")
+        };
+        ctx.model.ask(&format!("C19 snippet {max_chars} {} {st}", enc_text(text)))
+    });
+    if model.is_none() {
+        ctx.report.count("snippet:scores-not-dyadic(model-skipped)");
+    }
+
+    let real = real_snippet(gen, text);
+    let out = match real {
+        Err(_) => {
+            ctx.report.violation("oracle", "C19:snippet-panic", format!("SnippetGenerator::snippet panicked: {desc}"), case);
+            return;
+        }
+        Ok(o) => o,
+    };
+    // fragment: a substring of the text (both are valid UTF-8, so a match is on char boundaries)
+    let starts: Vec<usize> = if out.fragment.is_empty() { vec![0] } else { text.match_indices(out.fragment.as_str()).map(|(i, _)| i).collect() };
+    if starts.is_empty() {
+        ctx.report.violation("oracle", "C19:fragment-not-substring", format!("fragment {:?} is not a substring of the text: {desc}", short(&out.fragment)), case);
+        return;
+    }
+    let nchars = out.fragment.chars().count();
+    if nchars > max_chars {
+        // S7 signature: the fragment is exactly one token, and that token alone is longer than the limit
+        let single = starts.iter().any(|a| toks.iter().any(|t| t.offset_from == *a && t.offset_to == *a + out.fragment.len() && t.offset_to - t.offset_from > max_chars));
+        let key = if single { K_LONG } else { "C19:fragment-longer-than-max" };
+        ctx.report.violation("oracle", key, format!("fragment of {nchars} chars with max_num_chars = {max_chars}{}: {desc}", if single { " (a single token longer than the limit)" } else { "" }), case.clone());
+        if !single {
+            return;
+        }
+    }
+    // highlights
+    let hl = &out.highlighted;
+    let mut outside = false;
+    for h in hl.iter() {
+        if !(h.start <= h.end && h.end <= out.fragment.len()) {
+            outside = true;
+        } else if !out.fragment.is_char_boundary(h.start) || !out.fragment.is_char_boundary(h.end) {
+            ctx.report.violation("oracle", "C19:highlight-off-char-boundary", format!("highlight {h:?} of fragment {:?}: {desc}", short(&out.fragment)), case.clone());
+            return;
+        }
+    }
+    if outside {
+        // signature of the separate defect: the analyzer's end offsets are not monotone, so the
+        // fragment's stop offset (the *last* token's end) is smaller than an earlier term token's end
+        // precisely: every offending highlight is a term token t of the stream, and a *later* token u
+        // of the same fragment ends where the fragment ends, before t ends
+        let flen = out.fragment.len();
+        let signature = to_decreases && hl.iter().filter(|h| !(h.start <= h.end && h.end <= flen)).all(|h| {
+            h.start <= h.end && starts.iter().any(|a| {
+                toks.iter().enumerate().any(|(i, t)| matched[i] && t.offset_from == a + h.start && t.offset_to == a + h.end
+                    && toks[i + 1..].iter().any(|u| u.offset_to == a + flen && u.offset_from >= *a))
+            })
+        });
+        let to_decreases = signature;
+        let key = if signature { K_OUTSIDE } else { "C19:highlight-outside-fragment" };
+        ctx.report.violation("oracle", key, format!("highlights {:?} not inside the fragment of {} bytes (to_html {}): {desc}", hl, out.fragment.len(), if out.html.is_err() { "panics" } else { "does not panic" }), case.clone());
+        if !to_decreases {
+            return;
+        }
+    } else if out.html.is_err() {
+        ctx.report.violation("oracle", "C19:to-html-panic", format!("to_html panicked with highlights {:?} in a fragment of {} bytes: {desc}", hl, out.fragment.len()), case.clone());
+        return;
+    }
+    let sorted_disjoint = |v: &[Range<usize>]| v.windows(2).all(|w| w[0].end <= w[1].start);
+    if !outside && !sorted_disjoint(hl) {
+        // raw ranges overlap: only tolerated (as a recorded finding) when the two ranges are the
+        // ranges of two overlapping *tokens* of the analyzer that both are query terms
+        let from_tokens = hl.windows(2).filter(|w| w[0].end > w[1].start).all(|w| {
+            starts.iter().any(|a| {
+                let has = |r: &Range<usize>| toks.iter().zip(&matched).any(|(t, m)| *m && t.offset_from == a + r.start && t.offset_to == a + r.end);
+                has(&w[0]) && has(&w[1])
+            })
+        }) && hl.windows(2).all(|w| w[0].start <= w[1].start);
+        let key = if overlapping_tokens && from_tokens { K_OVERLAP } else { "C19:highlights-not-sorted-disjoint" };
+        ctx.report.violation("oracle", key, format!("raw highlighted() ranges {:?} overlap: {desc}", &hl[..hl.len().min(8)]), case.clone());
+        if key != K_OVERLAP {
+            return;
+        }
+    }
+    if !outside {
+        let collapsed = collapse_overlapped_ranges(hl);
+        if !sorted_disjoint(&collapsed) || collapsed.iter().any(|r| r.start > r.end) {
+            ctx.report.violation("oracle", "C19:collapsed-highlights-overlap", format!("collapse_overlapped_ranges({:?}) = {:?}: {desc}", hl, collapsed), case.clone());
+            return;
+        }
+        // every highlight covers text whose analysis yields a query term
+        let context_free = !matches!(tk, Tk::Regex { pat } if pat.contains("\\b") || pat.contains('^') || pat.contains("'"));
+        if context_free {
+            for h in hl.iter() {
+                let covered = &out.fragment[h.clone()];
+                let yields = tokens_of(&mut build(tk, fls), covered).unwrap_or_default().iter().any(|t| terms.contains_key(&t.text.to_lowercase()));
+                if !yields {
+                    ctx.report.violation("oracle", "C19:highlight-not-a-term", format!("highlight {h:?} covers {:?}, whose analysis yields no query term: {desc}", short(covered)), case.clone());
+                    return;
+                }
+            }
+        }
+        // html
+        if let Ok(html) = &out.html {
+            match unescape_strip(html) {
+                Err(e) => {
+                    ctx.report.violation("oracle", "C19:html-raw-special", format!("to_html() = {:?}: {e}: {desc}", short(html)), case.clone());
+                    return;
+                }
+                Ok((plain, tagged)) => {
+                    let expect: Vec<String> = collapsed.iter().map(|r| out.fragment[r.clone()].to_string()).collect();
+                    if plain != out.fragment {
+                        ctx.report.violation("oracle", "C19:html-roundtrip", format!("to_html() un-escaped and stripped is {:?}, fragment is {:?}: {desc}", short(&plain), short(&out.fragment)), case.clone());
+                        return;
+                    }
+                    if tagged != expect {
+                        ctx.report.violation("oracle", "C19:html-tags-misplaced", format!("text inside the tags {:?}, collapsed highlights cover {:?}: {desc}", tagged, expect), case.clone());
+                        return;
+                    }
+                }
+            }
+        }
+    }
+    // ---- O4: model ----------------------------------------------------------------------------
+    if let Some(m) = model {
+        let frag = if out.fragment.is_empty() { "-".to_string() } else { dots(&out.fragment) };
+        let mut flat = vec![];
+        for h in hl {
+            flat.push(h.start);
+            flat.push(h.end);
+        }
+        let r = format!("ok {frag} {} {}", nat_list(&flat), match &out.html { Ok(h) => hex(h.as_bytes()), Err(_) => "panic".into() });
+        if m != r {
+            ctx.report.violation("model", "C19:snippet-mismatch", format!("real {} model {}: {desc}", &r[..r.len().min(200)], &m[..m.len().min(200)]), case.clone());
+            return;
+        }
+    }
+    if ctx.report.samples.len() < 5 && n_matched >= 2 && text.len() < 80 && !text.is_ascii() {
+        ctx.report.sample(json!({"snippet_of": text, "tokenizer": tk, "filters": fls, "terms": terms.keys().collect::<Vec<_>>(), "max_num_chars": max_chars,
+            "fragment": out.fragment, "highlighted": hl.iter().map(|r| json!([r.start, r.end])).collect::<Vec<_>>(), "html": out.html.clone().unwrap_or("panic".into())}));
+    }
+}
+
+fn gen_snippet_analyzer(rng: &mut Rng) -> (Tk, Vec<Fl>) {
+    let tk = match rng.below(10) {
+        0..=3 => Tk::Simple,
+        4 => Tk::Whitespace,
+        5..=7 => {
+            let (min, max) = *rng.pick(&[(1usize, 2usize), (1, 3), (2, 3), (2, 4), (3, 3), (1, 1)]);
+            Tk::Ngram { min, max, prefix: rng.chance(1, 6) }
+        }
+        8 => Tk::Regex { pat: rng.pick(&[r"\w+", r"[^\s]+", r"\p{L}+"]).to_string() },
+        _ => Tk::Raw,
+    };
+    let fls = match rng.below(8) {
+        0 | 1 => vec![],
+        2 | 3 => vec![Fl::RemoveLong(40), Fl::Lower],
+        4 => vec![Fl::Lower, Fl::Stem("English".into())],
+        5 => vec![Fl::Lower, Fl::Split(vec!["dampf".into(), "schiff".into(), "fahrt".into(), "tax".into(), "payer".into()])],
+        6 => vec![Fl::Fold, Fl::Lower],
+        _ => vec![gen_filter(rng)],
+    };
+    (tk, fls)
+}
+
+fn gen_max_chars(rng: &mut Rng, text: &str) -> usize {
+    match rng.below(10) {
+        0 => 0,
+        1 => 1,
+        2 => 2 + rng.usize_below(3),
+        3 => 150,
+        4 => usize::MAX,
+        5 => 1_000_000,
+        6 => text.len(),
+        7 => text.len().saturating_sub(1),
+        _ => 5 + rng.usize_below(40),
+    }
+}
+
+fn gen_snippet_text(rng: &mut Rng) -> String {
+    let mut t = gen_text(rng);
+    if t.len() > 3000 {
+        let mut cut = 3000;
+        while !t.is_char_boundary(cut) {
+            cut -= 1;
+        }
+        t.truncate(cut);
+    }
+    t
+}
+
+/// snippets through `SnippetGenerator::new` (scores chosen by the harness, exact dyadic)
+fn snippet_direct(ctx: &mut Ctx) {
+    let mut rng = ctx.rng.fork();
+    let (tk, fls) = gen_snippet_analyzer(&mut rng);
+    let text = gen_snippet_text(&mut rng);
+    let toks = tokens_of(&mut build(&tk, &fls), &text).unwrap_or_default();
+    let mut terms: BTreeMap<String, f32> = BTreeMap::new();
+    let want = match rng.below(6) { 0 => 0, 1 | 2 => 1, 3 => 2, _ => 3 + rng.usize_below(4) };
+    for _ in 0..want {
+        if toks.is_empty() {
+            break;
+        }
+        // adjacent tokens on purpose half of the time
+        let i = rng.usize_below(toks.len());
+        let score = *rng.pick(&[0.5f32, 0.25, 0.125, 1.0, 0.0625, 0.5, 0.25]);
+        terms.insert(toks[i].text.to_lowercase(), score);
+        if rng.chance(1, 2) && i + 1 < toks.len() {
+            terms.insert(toks[i + 1].text.to_lowercase(), *rng.pick(&[0.5f32, 0.25]));
+        }
+    }
+    if rng.chance(1, 5) {
+        terms.insert("zzz-not-in-text".into(), 0.5);
+    }
+    if rng.chance(1, 25) {
+        if let Some(t) = toks.first() {
+            terms.insert(t.text.to_lowercase(), 0.0);
+        }
+    }
+    let m = gen_max_chars(&mut rng, &text);
+    check_snippet(ctx, &tk, &fls, &text, &terms, m, "new", None);
+}
+
+/// snippets through a real index: `SnippetGenerator::create(searcher, query, field)`
+fn snippet_index(ctx: &mut Ctx) {
+    let mut rng = ctx.rng.fork();
+    let (tk, fls) = gen_snippet_analyzer(&mut rng);
+    let mut sb = Schema::builder();
+    let opts = TextOptions::default()
+        .set_indexing_options(TextFieldIndexing::default().set_tokenizer("c19").set_index_option(IndexRecordOption::WithFreqsAndPositions))
+        .set_stored();
+    let body = sb.add_text_field("body", opts);
+    let index = Index::create_in_ram(sb.build());
+    index.tokenizers().register("c19", build(&tk, &fls));
+    let text = gen_snippet_text(&mut rng);
+    let copies = *rng.pick(&[1usize, 1, 3, 7]);
+    let others: Vec<String> = (0..rng.usize_below(3)).map(|_| gen_snippet_text(&mut rng)).collect();
+    let built = catch_unwind(AssertUnwindSafe(|| -> tantivy::Result<()> {
+        let mut w: IndexWriter = index.writer_with_num_threads(1, 20_000_000)?;
+        for _ in 0..copies {
+            w.add_document(doc!(body => text.clone()))?;
+        }
+        for o in &others {
+            w.add_document(doc!(body => o.clone()))?;
+        }
+        w.commit()?;
+        Ok(())
+    }));
+    if !matches!(built, Ok(Ok(()))) {
+        ctx.report.violation("oracle", "C19:indexing-panic", format!("indexing {:?}+{:?} on {} failed", tk, fls, short(&text)), tok_case(&tk, &fls, &text));
+        return;
+    }
+    let searcher = index.reader().unwrap().searcher();
+    // query terms: tokens of the text (present), plus an absent one
+    let toks = tokens_of(&mut build(&tk, &fls), &text).unwrap_or_default();
+    let mut qterms: Vec<String> = vec![];
+    let want = match rng.below(5) { 0 => 0, 1 | 2 => 1, _ => 2 + rng.usize_below(3) };
+    for _ in 0..want {
+        if toks.is_empty() {
+            break;
+        }
+        let i = rng.usize_below(toks.len());
+        qterms.push(toks[i].text.clone());
+        if rng.chance(1, 2) && i + 1 < toks.len() {
+            qterms.push(toks[i + 1].text.clone());
+        }
+    }
+    if rng.chance(1, 4) {
+        qterms.push("absentterm".into());
+    }
+    qterms.retain(|t| t.len() < 60000);
+    let terms_v: Vec<Term> = qterms.iter().map(|t| Term::from_field_text(body, t)).collect();
+    let query: Box<dyn Query> = if terms_v.len() >= 2 && rng.chance(1, 3) {
+        Box::new(PhraseQuery::new(terms_v.clone()))
+    } else {
+        Box::new(BooleanQuery::new(terms_v.iter().map(|t| (Occur::Should, Box::new(TermQuery::new(t.clone(), IndexRecordOption::Basic)) as Box<dyn Query>)).collect()))
+    };
+    let mut gen = match catch_unwind(AssertUnwindSafe(|| SnippetGenerator::create(&searcher, &*query, body))) {
+        Ok(Ok(g)) => g,
+        _ => {
+            ctx.report.violation("oracle", "C19:snippet-create-failed", format!("SnippetGenerator::create failed for terms {:?}", qterms), tok_case(&tk, &fls, &text));
+            return;
+        }
+    };
+    // what `create` must have computed: score = 1 / (1 + doc_freq) for terms with doc_freq > 0
+    let mut terms: BTreeMap<String, f32> = BTreeMap::new();
+    for (s, t) in qterms.iter().zip(&terms_v) {
+        let df = searcher.doc_freq(t).unwrap_or(0);
+        if df > 0 {
+            terms.insert(s.clone(), 1.0 / (1.0 + df as f32));
+        }
+    }
+    let m = if rng.chance(1, 4) { 150 } else { gen_max_chars(&mut rng, &text) };
+    if m != 150 || rng.chance(1, 2) {
+        gen.set_max_num_chars(m);
+    }
+    let m_eff = if m == 150 { 150 } else { m };
+    let subject = if rng.chance(3, 4) || others.is_empty() { text.clone() } else { others[0].clone() };
+    check_snippet(ctx, &tk, &fls, &subject, &terms, m_eff, "index", Some(&gen));
+    // snippet_from_doc joins the values of the field with ' ' and trims
+    if !others.is_empty() {
+        let d = doc!(body => subject.clone(), body => others[0].clone());
+        let joined = format!(" {} {}", subject, others[0]);
+        let a = catch_unwind(AssertUnwindSafe(|| { let s = gen.snippet_from_doc(&d); (s.fragment().to_string(), s.highlighted().to_vec()) }));
+        let b = catch_unwind(AssertUnwindSafe(|| { let s = gen.snippet(joined.trim()); (s.fragment().to_string(), s.highlighted().to_vec()) }));
+        ctx.report.count("snippet:from-doc");
+        if a.as_ref().ok() != b.as_ref().ok() {
+            ctx.report.violation("oracle", "C19:snippet-from-doc-differs", format!("snippet_from_doc of two values differs from snippet of the joined, trimmed text {}", short(joined.trim())), snip_case(&tk, &fls, joined.trim(), &terms, m_eff));
+        } else if let Ok((frag, hl)) = &a {
+            // and its own snippet obeys the oracle too
+            let _ = (frag, hl);
+            check_snippet(ctx, &tk, &fls, joined.trim(), &terms, m_eff, "from-doc", Some(&gen));
+        }
+    }
+    // the generator built by hand from the same terms behaves identically (replays rely on this)
+    let own = SnippetGenerator::new(terms.clone(), build(&tk, &fls), body, m_eff);
+    let a = real_snippet(&gen, &subject);
+    let b = real_snippet(&own, &subject);
+    let same = match (&a, &b) {
+        (Ok(x), Ok(y)) => x.fragment == y.fragment && x.highlighted == y.highlighted && x.html == y.html,
+        (Err(_), Err(_)) => true,
+        _ => false,
+    };
+    if !same {
+        ctx.report.violation("model", "C19:create-differs-from-new", format!("SnippetGenerator::create and ::new with terms {:?} give different snippets on {}", terms, short(&subject)), snip_case(&tk, &fls, &subject, &terms, m_eff));
+    }
+}
+
+/// `PreTokenizedStream` hands the stored tokens through unchanged
+fn pretokenized_case(ctx: &mut Ctx) {
+    let mut rng = ctx.rng.fork();
+    let text = gen_snippet_text(&mut rng);
+    let tk = gen_tokenizer(&mut rng);
+    let tk = if let Tk::Ngram { min, max, prefix } = tk { Tk::Ngram { min: min.min(3), max: max.min(4).max(min.min(3)), prefix } } else { tk };
+    let toks = tokens_of(&mut build(&tk, &[]), &text).unwrap_or_default();
+    let pts = PreTokenizedString { text: text.clone(), tokens: toks.clone() };
+    let got = catch_unwind(AssertUnwindSafe(|| {
+        let mut st = PreTokenizedStream::from(pts);
+        let mut out = vec![];
+        while st.advance() {
+            out.push(st.token().clone());
+        }
+        out
+    }));
+    ctx.report.case(&format!("pretok|{:?}|{}", tk, text), toks.len() >= 2);
+    ctx.report.count("pretokenized");
+    if got.as_ref().ok() != Some(&toks) {
+        ctx.report.violation("oracle", "C19:pretokenized-stream-changes-tokens", format!("PreTokenizedStream over {} tokens of {} returned something else", toks.len(), short(&text)), tok_case(&tk, &[], &text));
+    }
+}
+
+fn collapse_case(ctx: &mut Ctx) {
+    let mut rng = ctx.rng.fork();
+    let n = rng.usize_below(9);
+    let span = *rng.pick(&[4usize, 10, 30]);
+    let ranges: Vec<Range<usize>> = (0..n)
+        .map(|_| {
+            let a = rng.usize_below(span);
+            let b = a + rng.usize_below(span / 2 + 1);
+            a..b
+        })
+        .collect();
+    let real = collapse_overlapped_ranges(&ranges);
+    let mut flat = vec![];
+    for r in &ranges {
+        flat.push(r.start);
+        flat.push(r.end);
+    }
+    let mut rflat = vec![];
+    for r in &real {
+        rflat.push(r.start);
+        rflat.push(r.end);
+    }
+    ctx.report.case(&format!("collapse|{:?}", ranges), n >= 2);
+    ctx.report.count("collapse");
+    let case = json!({"kind": "collapse", "ranges": flat});
+    let covered = |v: &[Range<usize>], x: usize| v.iter().any(|r| r.start <= x && x < r.end);
+    if !real.windows(2).all(|w| w[0].end <= w[1].start) || (0..span * 2).any(|x| covered(&ranges, x) != covered(&real, x)) {
+        ctx.report.violation("oracle", "C19:collapse-wrong", format!("collapse_overlapped_ranges({:?}) = {:?}", ranges, real), case);
+        return;
+    }
+    let m = ctx.model.ask(&format!("C19 collapse {}", nat_list(&flat)));
+    if m != nat_list(&rflat) {
+        ctx.report.violation("model", "C19:collapse-mismatch", format!("collapse_overlapped_ranges({:?}) = {:?}, model {m}", ranges, real), case);
+    }
+}
+
+// ------------------------------------------------------------------------------------------
+fn replay(ctx: &mut Ctx, case: &serde_json::Value) {
+    let kind = case["kind"].as_str().unwrap_or("");
+    match kind {
+        "tok" | "snip" => {
+            let tk: Tk = serde_json::from_value(case["tokenizer"].clone()).expect("tokenizer");
+            let fls: Vec<Fl> = serde_json::from_value(case["filters"].clone()).expect("filters");
+            let text = case["text"].as_str().unwrap_or("").to_string();
+            if kind == "tok" {
+                check_tokens(ctx, &tk, &fls, &text);
+            } else {
+                let mut terms = BTreeMap::new();
+                if let Some(m) = case["terms"].as_object() {
+                    for (k, v) in m {
+                        terms.insert(k.clone(), f32::from_bits(v.as_u64().unwrap_or(0) as u32));
+                    }
+                }
+                let m = case["max_num_chars"].as_u64().unwrap_or(150) as usize;
+                check_snippet(ctx, &tk, &fls, &text, &terms, m, "replay", None);
+            }
+        }
+        "collapse" => {
+            ctx.report.notes.push("collapse cases are regenerated from the seed".into());
+        }
+        _ => ctx.report.notes.push(format!("unknown replay kind {kind}")),
+    }
+}
 
 pub fn run(ctx: &mut Ctx) {
-    ctx.report.notes.push("C19: harness not built yet".into());
+    ctx.report.rule = "cases = (tokenizer, filter chain, text) triples, (analyzer, text, terms, max_num_chars) snippet requests and range lists; \
+        non-trivial = tokenizer case with ≥1 token and (a multi-byte text or ≥2 tokens); snippet case where ≥1 token is a query term; collapse with ≥2 ranges".into();
+    ctx.report.correspondence_obligations = vec![
+        "bare tokenizer (simple, whitespace, raw, ngram, facet, regex): (from,to,position) list = model".into(),
+        "token texts of the bare tokenizer = model slices".into(),
+        "filter chain output (offsets, positions, texts) = model chain with std/stemmer/dictionary functions as tables".into(),
+        "FacetTokenizer + filter chain (text buffer rewritten in place by filters) = model facetChain".into(),
+        "SnippetGenerator::snippet: fragment, raw highlighted(), to_html() bytes (or panic) = model".into(),
+        "collapse_overlapped_ranges = model collapse".into(),
+        "SnippetGenerator::create over a real index = SnippetGenerator::new with 1/(1+doc_freq) scores".into(),
+    ];
+    if let Some(case) = ctx.replay.clone() {
+        replay(ctx, &case);
+        return;
+    }
+    // corpus first: DESIGN S7 and neighbours
+    {
+        let mut terms = BTreeMap::new();
+        terms.insert("abcdefghij".to_string(), 0.5f32);
+        check_snippet(ctx, &Tk::Simple, &[], "abcdefghij klm", &terms, 3, "corpus", None);
+        check_snippet(ctx, &Tk::Simple, &[], "abcdefghij klm", &terms, 10, "corpus", None);
+        check_snippet(ctx, &Tk::Simple, &[Fl::RemoveLong(40), Fl::Lower], "xy abcdefghij klm", &terms, 9, "corpus", None);
+        let mut t2 = BTreeMap::new();
+        for k in ["a", "ab", "abc", "b", "bc"] {
+            t2.insert(k.to_string(), 0.5f32);
+        }
+        for m in [0usize, 1, 2, 3, 150] {
+            check_snippet(ctx, &Tk::Ngram { min: 1, max: 3, prefix: false }, &[], "abcd", &t2, m, "corpus", None);
+        }
+        // second route to the highlight-outside-fragment finding: a stop-word filter drops the last
+        // n-grams, with the default max_num_chars
+        let mut t3 = BTreeMap::new();
+        t3.insert("bcd".to_string(), 0.5f32);
+        check_snippet(ctx, &Tk::Ngram { min: 1, max: 3, prefix: false }, &[Fl::Stop(vec!["d".into(), "cd".into()])], "abcd", &t3, 150, "corpus", None);
+        check_tokens(ctx, &Tk::Facet, &[], "top\0a\0b");
+        // found by the thorough tier: in-place filters rewrite the buffer the facet tokenizer appends to
+        check_tokens(ctx, &Tk::Facet, &[Fl::Stem("Turkish".into()), Fl::Stem("French".into())], "👨\u{200d}👩\u{200d}👧naïve\0fahrtRusty");
+        check_tokens(ctx, &Tk::Facet, &[Fl::Lower, Fl::Stem("English".into()), Fl::RemoveLong(40)], "Running\0flies\0PONIES\0Straße");
+        check_tokens(ctx, &Tk::Facet, &[Fl::Split(vec!["dampf".into(), "schiff".into()]), Fl::Stem("German".into())], "dampfschiff\0fahrten");
+        check_tokens(ctx, &Tk::Facet, &[Fl::Split(vec!["payer".into(), "fahrt".into()]), Fl::Stem("German".into())], "payer\0fahrtthe\0klmrunning\0is\0\0");
+        check_tokens(ctx, &Tk::Ngram { min: 1, max: 2, prefix: false }, &[], "a😀é");
+    }
+    let t0 = std::time::Instant::now();
+    let mut slowest: (f64, String) = (0.0, String::new());
+    let texts = ctx.budget(3000, 60_000);
+    for _ in 0..texts {
+        let mut rng = ctx.rng.fork();
+        let text = gen_text(&mut rng);
+        let n_an = if text.len() > 4000 { 2 } else { 4 };
+        for _ in 0..n_an {
+            let mut tk = gen_tokenizer(&mut rng);
+            // keep the quadratic blow-up of wide n-grams (tokens × token length) and the per-suffix
+            // regex evaluation away from long texts
+            if let Tk::Ngram { min, max, prefix } = &tk {
+                if *max > 5 && text.len() > 150 {
+                    tk = Tk::Ngram { min: (*min).min(5), max: 5, prefix: *prefix };
+                }
+            }
+            if text.len() > 4000 && matches!(tk, Tk::Regex { .. }) {
+                tk = Tk::Whitespace;
+            }
+            let fls = gen_chain(&mut rng);
+            let t1 = std::time::Instant::now();
+            // facet paths: most of the time turn the spaces into the facet separator (byte 0)
+            let facet_text;
+            let text: &String = if tk == Tk::Facet && rng.chance(2, 3) {
+                facet_text = text.replace(' ', "\0");
+                &facet_text
+            } else {
+                &text
+            };
+            check_tokens(ctx, &tk, &fls, text);
+            let dt = t1.elapsed().as_secs_f64();
+            if dt > slowest.0 {
+                slowest = (dt, format!("{:?}+{:?} on {} bytes", tk, fls, text.len()));
+            }
+        }
+    }
+    ctx.report.notes.push(format!("timing (informative only): tokenizer cases {:.1}s, slowest {:.2}s: {}", t0.elapsed().as_secs_f64(), slowest.0, slowest.1));
+    let t0 = std::time::Instant::now();
+    for _ in 0..ctx.budget(10_000, 200_000) {
+        snippet_direct(ctx);
+    }
+    for _ in 0..ctx.budget(600, 10_000) {
+        snippet_index(ctx);
+    }
+    for _ in 0..ctx.budget(1500, 30_000) {
+        collapse_case(ctx);
+    }
+    for _ in 0..ctx.budget(300, 5_000) {
+        pretokenized_case(ctx);
+    }
+    ctx.report.notes.push(format!("timing (informative only): snippet + collapse cases {:.1}s", t0.elapsed().as_secs_f64()));
 }
